@@ -537,6 +537,46 @@ fn specs(seed: u64, tier: &str) -> Vec<Spec> {
             id += 1;
         }
     }
+    // (e) near-surface queries: the query lies just outside a ball of non-zero radius (a leaf holding several
+    //     points, or a branch), in line with the ball's centre and a stored point on its near border, at a gap
+    //     that is tiny compared with the ball; the radius puts that stored point strictly inside by a few
+    //     ulps / a relative 1e-8.  distance(q, centre) - radius then cancels, so a pruning bound whose safety
+    //     margin does not cover the rounding of the two large terms loses the border point.
+    let nsurf = if thorough { 420 } else { 72 };
+    for i in 0..nsurf {
+        let mut r = rng.fork();
+        let f32_ = i % 6 == 5;
+        let d = 1 + (i % 3);
+        let n = *r.pick(&[2usize, 2, 3, 4, 6]);
+        let x: Vec<Vec<f64>> = match r.below(3) {
+            0 => (0..n).map(|j| (0..d).map(|c| if c == 0 { 1.0 + 2.0 * j as f64 } else { 0.0 }).collect()).collect(),
+            1 => (0..n).map(|_| (0..d).map(|_| r.range(-6, 6) as f64).collect()).collect(),
+            _ => (0..n).map(|_| (0..d).map(|_| 8.0 * r.unit() - 4.0).collect()).collect(),
+        };
+        let x: Vec<Vec<f64>> = if f32_ { x.iter().map(|p| p.iter().map(|v| *v as f32 as f64).collect()).collect() } else { x };
+        let leaf = *r.pick(&[1usize, 2, 2, 16]);
+        let met = match r.below(6) { 0 => Met::L1, 1 => Met::Linf, _ => Met::L2 };
+        let mut queries = vec![];
+        for _ in 0..6 {
+            let a = r.below(n as u64) as usize;
+            // centre of the whole batch, of a pair, or of the upper / lower half in first-coordinate order
+            let members: Vec<usize> = match r.below(3) {
+                0 => (0..n).collect(),
+                1 => { let b = (a + 1 + r.below(n as u64 - 1) as usize) % n; vec![a, b] }
+                _ => { let mut o: Vec<usize> = (0..n).collect(); o.sort_by(|u, w| x[*u][0].partial_cmp(&x[*w][0]).unwrap());
+                       let h = n / 2; let pos = o.iter().position(|j| *j == a).unwrap();
+                       if pos < h { o[..h.max(1)].to_vec() } else { o[h..].to_vec() } }
+            };
+            let c: Vec<f64> = (0..d).map(|k| members.iter().map(|j| x[*j][k]).sum::<f64>() / members.len() as f64).collect();
+            let t = (1 + r.below(64)) as f64 * if f32_ { 1.0e-4 } else { *r.pick(&[1.0e-9, 1.0e-9, 1.0e-7, 1.0e-11]) };
+            let q: Vec<f64> = (0..d).map(|k| x[a][k] + (x[a][k] - c[k]) * t).collect();
+            let q: Vec<f64> = if f32_ { q.iter().map(|v| *v as f32 as f64).collect() } else { q };
+            let fac = if f32_ { 1.0 + 2.0e-5 } else { 1.0 + 1.0e-8 };
+            queries.push(QuerySpec { q, ks: vec![1, 2], radii: vec![RadSpec::DistTo(a, 0, fac), RadSpec::DistTo(a, 2, 1.0), RadSpec::DistTo(a, 0, 1.0), RadSpec::DistTo(a, 64, 1.0)] });
+        }
+        v.push(Spec { id, stream: "surface", family: "surface".into(), met, f32_, x, dim: d, leaf, queries, ship_coords: n * d <= 8 });
+        id += 1;
+    }
     v
 }
 
